@@ -88,7 +88,7 @@ def sweep_overflows(nr10, f):
 
 def sweep_run(nr10, f, run):
     """channel 1 triggered once, then the sweep unit runs for several 128 Hz sweep clocks; NR52 after every cycle"""
-    return [w(NR12, 0xF0), w(NR10, nr10), w(NR13, f & 0xFF), w(NR14, 0x80 | (f >> 8)), cyc(run)]
+    return [w(NR12, 0xF0), w(NR10, nr10), w(NR13, f & 0xFF), w(NR14, 0x80 | (f >> 8)), cyc(run), 'apu.st']
 
 
 def sweep_off_cycle(nr10, f, run):
@@ -135,9 +135,14 @@ def generate(rng, tier):
             (0x1A, 0x7FF), (0x14, 0x70F)]
     if tier != 'quick':
         runs += [(p << 4 | sh, f) for p in (1, 2, 3, 7) for sh in range(1, 8) for f in (0x200, 0x3F0, 0x555, 0x6A0, 0x780)]
+    # sweep period 0 with a non-zero shift: the unit is "enabled" and its timer reloads with 8, but it must never
+    # recalculate: frequency and status stay put for good (observed over more than one 8-sweep-clock reload)
+    runs += [(0x01, 0x400), (0x03, 0x600), (0x09, 0x400), (0x07, 0x7F0), (0x02, 0x555)]
+    if tier != 'quick':
+        runs += [(n << 3 | sh, f) for n in (0, 1) for sh in range(1, 8) for f in (0x100, 0x400, 0x6A0)]
     for nr10, f in runs:
         period = (nr10 >> 4) & 7
-        run = 8192 * period * 4 + 7000
+        run = 8192 * period * 4 + 7000 if period else 72000
         cases.append(('v%02X_%03X_%d' % (nr10, f, run), sweep_run(nr10, f, run)))
         nrun += 1
     # channel 1: the frequency calculation a trigger performs when the sweep shift is non-zero
@@ -207,7 +212,7 @@ def extra(check, impl_cases, model_cases, cases):
             nr10, f, run = int(cid[1:3], 16), int(cid[4:7], 16), int(cid.split('_')[2])
             off = sweep_off_cycle(nr10, f, run)
             on_cycles = 0
-            for v, k in parse_rle(impl[-1].split()[1]):
+            for v, k in parse_rle([l for l in impl if l.startswith('c ')][-1].split()[1]):
                 if int(v) & 1:
                     on_cycles += k
                 else:
